@@ -64,3 +64,8 @@ pub fn hook_iv16(site: &'static str, iv: [u8; 16]) -> [u8; 16] {
         _ => iv,
     })
 }
+
+/// First access of this module's thread-local state that has a destructor (see sched::ExitProbe).
+pub fn touch_tls() {
+    let _ = IV.try_with(|_| ());
+}
